@@ -75,10 +75,12 @@ def job_storage(job):
                 idx = list(range(len(ks)))
                 rng.shuffle(idx)
                 yield 'zero-padded', tuple(ks[i] for i in idx), [vs[i] for i in idx]
-                m = mv_from(alg, keys, vals)
-                for canonical in (True, False):
-                    f = m.asfullmv(canonical=canonical)
-                    yield f'asfullmv(canonical={canonical})', tuple(f.keys()), list(f.values())
+                # the full 2^d layouts are built here, not with asfullmv(): C08 is about operands that denote the same element,
+                # and whether asfullmv() returns such an operand is C15's question
+                d_ = dict(zip(keys, vals))
+                canon_keys = tuple(alg.canon2bin.values())
+                yield 'full layout, canonical order', canon_keys, [d_.get(k, F(0)) for k in canon_keys]
+                yield 'full layout, binary order', tuple(range(N)), [d_.get(k, F(0)) for k in range(N)]
             for name in list(job['ops']) + (['sqrt', 'norm', 'normalized'] if job.get('study', True) else []):
                 binary = name in ALL_BIN
                 base = None
@@ -115,7 +117,7 @@ def job_storage(job):
                                                     'variant': [va, vb], 'got': str(res)[:300], 'expected_same_as': str(base)[:300],
                                                     'a_base': showmv(ak, av), 'b_base': showmv(bk, bv) if binary else None})
                 if len(out['samples']) < 3:
-                    out['samples'].append({'config': cfg, 'op': name, 'a': showmv(ak, av), 'b': showmv(bk, bv), 'variants': 'same/permuted/zero-padded/asfullmv x2'})
+                    out['samples'].append({'config': cfg, 'op': name, 'a': showmv(ak, av), 'b': showmv(bk, bv), 'variants': 'same/permuted/zero-padded/full canonical/full binary'})
     out['distinct'] = len(pats)
     return out
 
@@ -161,9 +163,21 @@ def job_history(job):
                 if rng.random() < 0.5:
                     rng.shuffle(ks2)
                 av, bv = frac_vals(rng, ks), frac_vals(rng, ks2)
-                kind = rng.choice(['op', 'op', 'unary', 'reg', 'fail'])
+                kind = rng.choice(['op', 'op', 'unary', 'reg', 'fail', 'spelling'])
                 name = rng.choice(['gp', 'op', 'ip', 'add', 'sub', 'sw', 'rp', 'cp']) if kind in ('op', 'fail') else \
-                    rng.choice(['reverse', 'neg', 'normsq', 'hodge', 'unhodge', 'conjugate', 'involute', 'hodge', 'unhodge']) if kind == 'unary' else rng.choice(sorted(registered))
+                    rng.choice(['reverse', 'neg', 'normsq', 'hodge', 'unhodge', 'conjugate', 'involute', 'hodge', 'unhodge']) if kind == 'unary' else \
+                    rng.choice(sorted(registered)) if kind == 'reg' else None
+                if kind == 'spelling':
+                    # a blade reached through two (generally different) spellings: the blade dictionary and coefficient access
+                    cands = [n for n in alg.canon2bin if len(n) >= 3]
+                    if not cands:
+                        kind, name = 'unary', 'reverse'
+                    else:
+                        cn = rng.choice(cands)
+                        g1, g2 = list(cn[1:]), list(cn[1:])
+                        rng.shuffle(g1)
+                        rng.shuffle(g2)
+                        name = ('e' + ''.join(g1), 'e' + ''.join(g2), alg.canon2bin[cn])
 
                 def run(A, reg):
                     a, b = mv_from(A, ks, list(av)), mv_from(A, ks2, list(bv))
@@ -173,6 +187,9 @@ def job_history(job):
                         return getattr(A, name)(a), (a,)
                     if kind == 'reg':
                         return reg[name][0](a, b), (a, b)
+                    if kind == 'spelling':
+                        carrier = mv_from(A, (name[2], 0), [F(3), F(2)])
+                        return A.blades[name[0]] * getattr(carrier, name[1]) + getattr(carrier, name[0]), (a,)
                     # failing call: division by a null / zero element, then nothing else
                     z = mv_from(A, (0,), [F(0)])
                     return A.div(a, z), (a,)
@@ -186,7 +203,7 @@ def job_history(job):
                     # direct evaluation as the independent expectation as well
                     pass
                 ok = g[0] == e[0] and (g[1] == e[1] if g[0] == 'raise' else _eq(g[1], e[1]))
-                steps.append([kind, name, ks, ks2])
+                steps.append([kind, list(name) if isinstance(name, tuple) else name, ks, ks2])
                 if got[0] == 'value':
                     for m in got[1][1]:
                         pass
